@@ -21,6 +21,7 @@
    K2 MetaKey(key, isMajor, num, isFlat) with num in 0..7 emits FF 59 02 (+-num) (0|1); GetMetaKeySig / GetMetaKey
       of that message return the tonic of the circle of fifths, num, isMajor, and isFlat (FALSE when num = 0: minus
       zero does not exist).  So the two are mutually inverse on the valid domain key = tonic(num, isFlat, isMajor).
+      Both accessors also answer TRUE when called with nil pointers (documented: only non-nil arguments are filled).
    K3 GetMetaKeySig of any FF 59 02 sf mi with sf in -7..7, mi in 0..1 succeeds with these values (7 sharps: C# major /
       A# minor, 7 flats: Cb major (pitch class 11) / Ab minor, none: C major / A minor).  For signatures of up to six
       accidentals Key.String() is the name of the key; for seven the library has no name and nothing is demanded.
